@@ -449,6 +449,17 @@ fn build_predicate(ch: &mut Chooser, cfg: &GraphCfg, programs: &mut Vec<Vec<MOp>
         node_prog[ix] = programs.len();
         programs.push(p);
     }
+    // program sharing: one program (same content address) used at two nodes of the predicate, preferably a post-state
+    // reader (each use has to be deferred / evaluated on its own)
+    if n >= 3 && !cfg.calm && ch.chance(1, 5) {
+        let readers: Vec<usize> = (0..n).filter(|i| programs[node_prog[*i]].iter().any(|o| matches!(o, PKRNG | PKREX))).collect();
+        let a = if !readers.is_empty() && ch.chance(3, 4) { readers[ch.pick(readers.len())] } else { ch.pick(n) };
+        let same: Vec<usize> = (0..n).filter(|i| *i != a && children[*i].is_empty() == children[a].is_empty()).collect();
+        if !same.is_empty() {
+            let b = same[ch.pick(same.len())];
+            node_prog[b] = node_prog[a];
+        }
+    }
     // encoding: edges in node order; leaves by empty range, or by the marker where that is faithful
     let mut edges: Vec<u16> = Vec::new();
     let mut starts: Vec<u16> = Vec::new();
